@@ -83,8 +83,21 @@ func (b Branch) MedianTimeAndWork(ctx context.Context,
 		height--
 	}
 
-	// Sort by time
-	sort.Sort(list)
+	// Sort by time. For the median of three the network uses this three comparison sorting network. Its
+	// result differs from a stable sort when timestamps are equal, so it must be reproduced exactly.
+	if count == 3 {
+		if list[0].time > list[2].time {
+			list[0], list[2] = list[2], list[0]
+		}
+		if list[0].time > list[1].time {
+			list[0], list[1] = list[1], list[0]
+		}
+		if list[1].time > list[2].time {
+			list[1], list[2] = list[2], list[1]
+		}
+	} else {
+		sort.Sort(list)
+	}
 
 	// Get values from the middle item in the list.
 	result := list[count/2]
